@@ -184,7 +184,7 @@ theorem mkTcoord_base_err {ds name rt arg rel e} (h : base .tcoord name rel = .e
   unfold mkTcoord; simp only [h]
 
 theorem mkTcoord_enum_err {ds name rt arg rel a} (hb : base .tcoord name rel = .ok a)
-    (h : enumHas Gen.srTemporalRangeTypes rt = false) : mkTcoord ds name rt arg rel = .error .value := by
+    (h : enumHas Gen.c13TemporalRangeTypes rt = false) : mkTcoord ds name rt arg rel = .error .value := by
   unfold mkTcoord; simp [hb, h]
 
 /-- sample positions given and not empty: they are written, whatever the other two arguments are -/
@@ -195,7 +195,7 @@ theorem mkTcoordA_positions (ds : Rat → Rat) (name : Coded) (rt : String) (l :
   cases hb : base .tcoord name rel with
   | error e => simp only [mkTcoord_base_err hb]
   | ok a =>
-    cases hr : enumHas Gen.srTemporalRangeTypes rt with
+    cases hr : enumHas Gen.c13TemporalRangeTypes rt with
     | false => simp [mkTcoord_enum_err hb hr]
     | true =>
       have h2 : ((l.length : Int) == 0) = false := length_ne_zero_beq _ (by simpa using hne)
@@ -209,7 +209,7 @@ theorem mkTcoordA_offsets (ds : Rat → Rat) (name : Coded) (rt : String) (l : L
   cases hb : base .tcoord name rel with
   | error e => simp only [mkTcoord_base_err hb]
   | ok a =>
-    cases hr : enumHas Gen.srTemporalRangeTypes rt with
+    cases hr : enumHas Gen.c13TemporalRangeTypes rt with
     | false => simp [mkTcoord_enum_err hb hr]
     | true =>
       have h2 : ((l.length : Int) == 0) = false := length_ne_zero_beq _ (by simpa using hne)
@@ -222,7 +222,7 @@ theorem mkTcoordA_datetimes (ds : Rat → Rat) (name : Coded) (rt : String) (l :
   cases hb : base .tcoord name rel with
   | error e => simp only [mkTcoord_base_err hb]
   | ok a =>
-    cases hr : enumHas Gen.srTemporalRangeTypes rt with
+    cases hr : enumHas Gen.c13TemporalRangeTypes rt with
     | false => simp [mkTcoord_enum_err hb hr]
     | true =>
       have h2 : ((l.length : Int) == 0) = false := length_ne_zero_beq _ (by simpa using hne)
@@ -241,7 +241,7 @@ theorem mkTcoordA_refuses (ds : Rat → Rat) (name : Coded) (rt : String) (pos :
   | error e => simp only [hb] at hit; cases hit
   | ok a =>
     simp only [hb] at hit
-    cases hr : enumHas Gen.srTemporalRangeTypes rt with
+    cases hr : enumHas Gen.c13TemporalRangeTypes rt with
     | false => simp [hr] at hit
     | true =>
       rcases h with h | ⟨h1, h2⟩ | ⟨h1, h2, h3⟩ | ⟨h1, h2, h3⟩
